@@ -268,3 +268,10 @@ Definition baseline1 (d dbl : nat) (divisive : bool) (red : qrow -> option Q) (b
   let a2 := map (fun x => repeat x d) b in
   Some (map (fun pr => map (fun xy => lift2 (if divisive then Qdiv else Qminus) (fst xy) (snd xy))
                            (combine (fst pr) (snd pr))) (combine s a2)).
+(* z: _map(series, _z) with _z(a) = (a - np.nanmean(a)) / np.nanstd(a), NumPy broadcasting a scalar over the row.
+   np.nanstd is a parameter (a square root is not rational in general): the correspondence passes the table of
+   the exact standard deviations, the theorems quantify over every function that returns them *)
+Definition z_row1 (nanstd : qrow -> option Q) (a : qrow) : qrow :=
+  map (fun x => lift2 Qdiv x (nanstd a)) (map (fun x => lift2 Qminus x (nanmean a)) a).
+Definition z1 (nanstd : qrow -> option Q) (s : list qrow) : option (list qrow) :=
+  smap (fun a => Some (z_row1 nanstd a)) s.
